@@ -595,6 +595,51 @@ def write_broken_evidence(prop, tier, t0, why):
         json.dump(ev, fh, indent=1)
 
 
+# rules added after the first version of the explanations above (seed waves c-h, refactoring waves 3-5); see DESIGN.md 11 and 13
+ADDENDA = {
+    'C01': 'Also decided: the edge-sequence constructors insert unforced and grow before they insert (F-XPORT), boolean options '
+           'are handed on to callees that have the same option (F-FWD), no label store sits between the list insertion and '
+           'the count update (F-PAIR.N), list cursors only advance (F-CURSOR), sibling defaults agree (D-DEFAULT).',
+    'C02': 'Also decided: the edge-sequence constructors and the conversion from a directed graph insert unforced (F-XPORT), a '
+           're-export names what the direct base offers (D-ENC), no label store between list insertion and count (F-PAIR.N; '
+           'defect D16 of the pinned tree).',
+    'C03': 'The label accessor is examined for every witness label kind, including a user class with an explicit constructor '
+           'and an empty user class (a no-op accessor selected for a real label type is a violation).',
+    'C06': 'Also decided: hand-written copy / move members transfer every data member (D-VALSEM).',
+    'C07': 'Also decided: the label of a removed edge is erased (F-PAIR.L - the accessor decides existence from the store), no '
+           'function that can throw is declared noexcept (D-NOEXCEPT), the range sanitizer is not applied to an invented index '
+           '(F-VAL.inv).',
+    'C08': 'Also decided: each class publishes the edges() / begin() / end() its direct base offers (D-ENC re-export targets) '
+           'and the conversions enumerate every edge of their source once (F-XPORT).',
+    'C09': 'Also decided: nothing writes a label store in the instantiations without labels (F-LSET.none); hand-written special '
+           'members are member-wise (D-VALSEM).',
+    'C10': 'Also decided: every insertion into the subgraph hands over the label, the remap counter advances by one per element, '
+           'hand-written special members of the returned graph are member-wise (D-VALSEM).',
+    'C11': 'Also decided: the distances start at the documented sentinel, wrappers forward their vertex arguments in order (F-FWD).',
+    'C12': 'Also decided: the entry removed from the queue is the vertex scanned (F-HEAP.top), the worklist initially holds the '
+           'source only, an associative container with unique keys is not used as the queue.',
+    'C13': 'Also decided: the line loop ends on the failure of std::getline (not on eof), writers that walk the neighbour lists '
+           'keep every edge of a directed graph.',
+    'C14': 'Also decided: reads are checked and an end-of-file look-ahead is compared as an int (F-IO.READ), the stream is opened '
+           'on the caller\'s file name itself and on every path (F-IO.OPEN), writers that walk the neighbour lists write each edge '
+           'once per storage family.',
+    'C15': 'Also decided: no function whose exception the loaders rely on is noexcept (D-NOEXCEPT), computed subscripts of '
+           'fixed-size arrays are bounded (F-IO.TOK).',
+    'C16': 'Also decided: a force option is handed on to every insertion an operation performs (F-FWD; defect D17 of the pinned '
+           'tree), updates of the total written once after the arms of a branch are paired by path counting.',
+    'C17': 'Also decided: a list is not mutated under a live cursor, directly or through a callee (F-CURSOR.live), results of '
+           'max_element / min_element are dereferenced only on a non-empty range, every scalar member is initialised (D-INIT), '
+           'binary searches run on sorted ranges (F-SORTED), no signed arithmetic on converted unsigned values (F-SOVF).',
+    'C18': 'Also decided: the library starts no thread, calls no function that replaces process-wide state (locale, terminate '
+           'handler, environment) or uses hidden static storage (localtime ...), and the writers touch exactly the file they are '
+           'given (F-IO.OPEN: the caller\'s name itself, no rename / remove).',
+    'C19': 'Also decided: the priority queue puts the minimum on top (comparator of the heap algorithms, ordering of a '
+           'std::priority_queue), the source is marked before the loop, ties do not re-queue.',
+    'C20': 'Label kinds of the matrix: NoLabel, int, unsigned, double, char, std::string, an aggregate struct, a class with an '
+           'explicit constructor with default arguments and a std::string member, an empty class.',
+}
+
+
 def manifest():
     """Regenerate /verif/MANIFEST.json from the property table."""
     import collections
@@ -611,7 +656,7 @@ def manifest():
             evidence_file='/verif/evidence/%s.json' % pid,
             replay_cmd_template='python3 -m bgcheck replay {path}',
             engine='bgcheck',
-            level_claimed=dict(category=sp['level'], text=sp['explanation'], design_ref=sp.get('design_ref', 'DESIGN.md section 4, ' + pid)),
+            level_claimed=dict(category=sp['level'], text=sp['explanation'] + (' ' + ADDENDA[pid] if pid in ADDENDA else ''), design_ref=sp.get('design_ref', 'DESIGN.md section 4, ' + pid)),
             level_note='Trusted base: ' + '; '.join(sp['trusted_base']) + '. Assumes: ' + '; '.join(sp['assumptions']),
             technique=sp.get('technique', 'static analysis: custom rules over clang AST/CFG facts of the instantiated headers'),
         ))
